@@ -31,13 +31,13 @@ static std::string gen_message(Rng &r, const Cfg &c, std::string &desc)
         std::string a = pre + L.pname(n);
         if(n == "preset") { int v = L.preset_lo + (int)r.below(2); rtosc_message(buf, sizeof buf, a.c_str(), "i", v); desc = a + fmt(" %d", v); }
         else if(n == "a") { int v = r.chance(0.2) ? (r.chance(0.5) ? L.a_min - 5 : L.a_max + 5) : (int)r.range(L.a_min, L.a_max); if(r.chance(0.3)) v = (int)r.range(-12, 130); rtosc_message(buf, sizeof buf, a.c_str(), "i", v); desc = a + fmt(" %d", v); }
-        else if(n == "b") { float v = (float)r.range(-440, 440) / 4; rtosc_message(buf, sizeof buf, a.c_str(), "f", v); desc = a + fmt(" %g", v); }
+        else if(n == "b") { float v = (float)r.range(-440, 440) / 4; if(r.chance(0.1)) { static const float TINY[] = {1e-39f, -1e-39f, 1.17549435e-38f, 3e-42f, 1e-45f, -1.17549435e-38f}; v = L.b_def[0] == 0 || true ? TINY[r.below(6)] : v; } rtosc_message(buf, sizeof buf, a.c_str(), "f", v); desc = a + fmt(" %g", v); }
         else if(n == "c") { int v = (int)r.range(0, 127); rtosc_message(buf, sizeof buf, a.c_str(), "c", v); desc = a + fmt(" %d", v); }
         else if(n == "t" || n == "on") { bool v = r.chance(0.5); rtosc_message(buf, sizeof buf, a.c_str(), v ? "T" : "F"); desc = a + (v ? " T" : " F"); }
         else if(n == "o") { int v = (int)r.below(3); if(r.chance(0.5)) { rtosc_message(buf, sizeof buf, a.c_str(), "S", L.opts[v].c_str()); desc = a + " " + L.opts[v]; } else { rtosc_message(buf, sizeof buf, a.c_str(), "i", v); desc = a + fmt(" %d", v); } }
         else if(n == "s") { static const char *S[] = {"", "x", "hello world", "q\"uo\"te", "per%cent", "new\nline", "back\\sl", "fifteen chars..", "tab\there", "#hash /slash"}; const char *v = S[r.below(10)]; rtosc_message(buf, sizeof buf, a.c_str(), "s", v); desc = a + " \"" + vis(v) + "\""; }
         else if(n == "arr") { int i = (int)r.below(8), v = r.chance(0.5) ? (int)r.range(-3, 3) : (int)r.range(-100, 100); a += std::to_string(i); rtosc_message(buf, sizeof buf, a.c_str(), "i", v); desc = a + fmt(" %d", v); }
-        else if(n == "farr") { int i = (int)r.below(8); float v = r.chance(0.5) ? (float)r.range(-2, 2) / 2 : (float)r.range(-40, 40) / 8; a += std::to_string(i); rtosc_message(buf, sizeof buf, a.c_str(), "f", v); desc = a + fmt(" %g", v); }
+        else if(n == "farr") { int i = (int)r.below(8); float v = r.chance(0.5) ? (float)r.range(-2, 2) / 2 : (float)r.range(-40, 40) / 8; if(r.chance(0.1)) { static const float TINY[] = {1e-39f, 3e-42f, 1.17549435e-38f, -1e-40f}; v = TINY[r.below(4)]; } a += std::to_string(i); rtosc_message(buf, sizeof buf, a.c_str(), "f", v); desc = a + fmt(" %g", v); }
         else if(n == "bank" || n == "engine") { int v = (int)r.below(4); rtosc_message(buf, sizeof buf, a.c_str(), "i", v); desc = a + fmt(" %d", v); }
         else if(n == "mode") { int v = (int)r.below(10); rtosc_message(buf, sizeof buf, a.c_str(), "i", v); desc = a + fmt(" %d", v); }
         else { int v = (int)r.range(-5, 120); rtosc_message(buf, sizeof buf, a.c_str(), "i", v); desc = a + fmt(" %d", v); }
